@@ -11,10 +11,11 @@ import (
 // ---- hybrid call edges ----
 
 type callEdge struct {
-	Site   ssa.CallInstruction
-	Callee *ssa.Function
-	IsGo   bool
-	Lexical bool // closure handed to the txn runner / allocator at this site
+	Site    ssa.CallInstruction
+	Callee  *ssa.Function
+	IsGo    bool
+	Lexical bool          // function value handed to a higher-order helper at this site
+	Via     *ssa.Function // the helper that will invoke it
 }
 
 // calleesOf returns the package-local callees of fn: static callees; VTA-resolved targets
@@ -31,21 +32,34 @@ func (m *Model) calleesOf(fn *ssa.Function) []callEdge {
 		_, isGo := c.(*ssa.Go)
 		if callee := c.Common().StaticCallee(); callee != nil {
 			if m.inPkg(callee) {
-				out = append(out, callEdge{c, callee, isGo, false})
+				out = append(out, callEdge{Site: c, Callee: callee, IsGo: isGo})
 			}
 			if callee == m.A.TxnRunner || callee == m.A.Allocator {
 				for _, arg := range c.Common().Args {
 					if mc, ok := arg.(*ssa.MakeClosure); ok {
-						out = append(out, callEdge{c, mc.Fn.(*ssa.Function), isGo, true})
+						out = append(out, callEdge{Site: c, Callee: mc.Fn.(*ssa.Function), IsGo: isGo, Lexical: true, Via: m.A.TxnRunner})
 					} else if f, ok := arg.(*ssa.Function); ok {
-						out = append(out, callEdge{c, f, isGo, true})
+						out = append(out, callEdge{Site: c, Callee: f, IsGo: isGo, Lexical: true, Via: m.A.TxnRunner})
+					}
+				}
+			} else if m.inPkg(callee) {
+				// any other higher-order helper that invokes a func-typed parameter (withLock(fn) etc.):
+				// the function value passed here runs inside the helper; reach it from this call site
+				// only, not from every other caller of the helper
+				for pi := range m.hoParams(callee) {
+					if pi < len(c.Common().Args) {
+						for _, t := range m.funcTargets(c.Common().Args[pi]) {
+							if m.inPkg(t) {
+								out = append(out, callEdge{Site: c, Callee: t, IsGo: isGo, Lexical: true, Via: callee})
+							}
+						}
 					}
 				}
 			}
 			// time.AfterFunc(d, f): f runs later on its own goroutine
 			if callee.Pkg != nil && callee.Pkg.Pkg.Path() == "time" && callee.Name() == "AfterFunc" {
 				for _, t := range m.funcTargets(c.Common().Args[1]) {
-					out = append(out, callEdge{c, t, true, false})
+					out = append(out, callEdge{Site: c, Callee: t, IsGo: true})
 				}
 			}
 			return
@@ -55,12 +69,17 @@ func (m *Model) calleesOf(fn *ssa.Function) []callEdge {
 				return // the callback invocation: handled lexically
 			}
 		}
+		if p, ok := c.Common().Value.(*ssa.Parameter); ok && !c.Common().IsInvoke() && p.Parent() == fn {
+			if _, isFn := p.Type().Underlying().(*types.Signature); isFn {
+				return // a func-typed parameter being invoked: handled lexically at the helper's call sites
+			}
+		}
 		if node == nil {
 			return
 		}
 		for _, e := range node.Out {
 			if e.Site == c && m.inPkg(e.Callee.Func) {
-				out = append(out, callEdge{c, e.Callee.Func, isGo, false})
+				out = append(out, callEdge{Site: c, Callee: e.Callee.Func, IsGo: isGo})
 			}
 		}
 	})
@@ -115,9 +134,15 @@ func (m *Model) reachHybrid(fn *ssa.Function, crossGo bool) map[*ssa.Function]bo
 type lockID struct {
 	Field *types.Var
 	Owner string
+	Role  string
 }
 
-func (l lockID) String() string { return l.Owner + "." + l.Field.Name() }
+func (l lockID) String() string {
+	if l.Role != "" {
+		return l.Role
+	}
+	return l.Owner + "." + l.Field.Name()
+}
 
 type lockOp struct {
 	Instr    ssa.CallInstruction
@@ -140,13 +165,27 @@ func (m *Model) lockOpOf(c ssa.CallInstruction) (lockOp, bool) {
 		name = cc.Method.Name()
 		recv = cc.Value
 	default:
+		// acquire wrappers: a package function that returns with a lock held (and hands back the release function)
+		if callee := cc.StaticCallee(); callee != nil && !deferred {
+			if l, ok := m.lockWrapper(callee); ok {
+				return lockOp{Instr: c, Lock: l, Acquire: true}, true
+			}
+		}
+		// calling the release function such a wrapper returned: `defer b.lock()()`
+		if call, ok := cc.Value.(*ssa.Call); ok && !cc.IsInvoke() {
+			if w := call.Common().StaticCallee(); w != nil {
+				if l, ok := m.lockWrapper(w); ok && m.wrapperReturnsRelease(w) {
+					return lockOp{Instr: c, Lock: l, Acquire: false, Deferred: deferred}, true
+				}
+			}
+		}
 		return lockOp{}, false
 	}
 	f, owner := m.lockFieldOf(recv)
 	if f == nil {
 		return lockOp{}, false
 	}
-	return lockOp{Instr: c, Lock: lockID{f, owner}, Acquire: name == "Lock", Deferred: deferred}, true
+	return lockOp{Instr: c, Lock: lockID{f, owner, m.lockRole(f, owner)}, Acquire: name == "Lock", Deferred: deferred}, true
 }
 
 func (m *Model) lockFieldOf(v ssa.Value) (*types.Var, string) {
@@ -261,7 +300,7 @@ func (m *Model) locks() *lockModel {
 		if fn.Parent() == nil && (fn.Object() != nil && fn.Object().Exported()) {
 			lm.roots[fn] = "exported"
 		}
-		if len(callers[fn]) == 0 {
+		if len(callers[fn]) == 0 && fn.Synthetic == "" {
 			lm.roots[fn] = "no callers"
 		}
 	}
@@ -297,6 +336,12 @@ func (m *Model) locks() *lockModel {
 					at = fl.mustAt[e.Site]
 					if at == nil {
 						at = lockset{}
+					}
+					if e.Lexical && e.Via != nil {
+						at = at.clone()
+						for l := range m.heldInsideHelper(e.Via) {
+							at[l] = true
+						}
 					}
 				}
 				old, had := lm.entry[e.Callee]
@@ -447,4 +492,134 @@ func (m *Model) heldAt(in ssa.Instruction) lockset {
 		return s
 	}
 	return lockset{}
+}
+
+// lockRole names the well-known locks by role (rename-proof keys).
+func (m *Model) lockRole(f *types.Var, owner string) string {
+	a := &m.A
+	switch {
+	case f == a.BucketMutex:
+		return "bucket-mutex"
+	case f == a.CollMutex:
+		return "collection-mutex"
+	}
+	if a.ClockType != nil && owner == a.ClockType.Obj().Name() {
+		return "clock-mutex"
+	}
+	if reg, mu, _ := m.registryType(); reg != nil && f == mu {
+		return "registry-lock"
+	}
+	if a.ExpMgrField != nil {
+		if pt, ok := a.ExpMgrField.Type().(*types.Pointer); ok {
+			if n, ok := pt.Elem().(*types.Named); ok && n.Obj().Name() == owner {
+				return "expiry-mutex"
+			}
+		}
+	}
+	if isPtrToNamed(f.Type(), "sync", "Cond") {
+		return "queue-lock"
+	}
+	return ""
+}
+
+// hoParams: indices of the func-typed parameters a function invokes itself.
+func (m *Model) hoParams(fn *ssa.Function) map[int]bool {
+	if r, ok := m.hoCache[fn]; ok {
+		return r
+	}
+	out := map[int]bool{}
+	m.hoCache[fn] = out
+	m.eachCall(fn, func(c ssa.CallInstruction) {
+		if c.Common().IsInvoke() {
+			return
+		}
+		if p, ok := c.Common().Value.(*ssa.Parameter); ok {
+			for i, q := range fn.Params {
+				if q == p {
+					out[i] = true
+				}
+			}
+		}
+	})
+	return out
+}
+
+// heldInsideHelper: the locks a higher-order helper holds (relative to its own entry) at the
+// point where it invokes its function parameter.
+func (m *Model) heldInsideHelper(h *ssa.Function) lockset {
+	if r, ok := m.helperHeld[h]; ok {
+		return r
+	}
+	out := lockset{}
+	m.helperHeld[h] = out
+	fl := m.flowLocks(h, lockset{})
+	first := true
+	m.eachCall(h, func(c ssa.CallInstruction) {
+		if c.Common().IsInvoke() {
+			return
+		}
+		if p, ok := c.Common().Value.(*ssa.Parameter); ok && p.Parent() == h {
+			held := fl.mustAt[c]
+			if first {
+				for l := range held {
+					out[l] = true
+				}
+				first = false
+			} else {
+				for l := range out {
+					if !held[l] {
+						delete(out, l)
+					}
+				}
+			}
+		}
+	})
+	return out
+}
+
+// lockWrapper: does fn return, on every path, holding exactly one lock it acquired itself?
+func (m *Model) lockWrapper(fn *ssa.Function) (lockID, bool) {
+	if r, ok := m.wrapperCache[fn]; ok {
+		return r.l, r.ok
+	}
+	m.wrapperCache[fn] = wrapperInfo{}
+	if !m.inPkg(fn) || len(fn.Blocks) == 0 || len(fn.Blocks) > 3 {
+		return lockID{}, false
+	}
+	var acq []lockOp
+	okShape := true
+	m.eachCall(fn, func(c ssa.CallInstruction) {
+		cc := c.Common()
+		if isMethodCall(cc, "sync", "Mutex", "Lock") {
+			if f, owner := m.lockFieldOf(cc.Args[0]); f != nil {
+				acq = append(acq, lockOp{Instr: c, Lock: lockID{f, owner, m.lockRole(f, owner)}, Acquire: true})
+			}
+		} else if isMethodCall(cc, "sync", "Mutex", "Unlock") {
+			okShape = false
+		}
+	})
+	if !okShape || len(acq) != 1 {
+		return lockID{}, false
+	}
+	m.wrapperCache[fn] = wrapperInfo{acq[0].Lock, true}
+	return acq[0].Lock, true
+}
+
+// wrapperReturnsRelease: the wrapper's result is the Unlock method value of the lock it took.
+func (m *Model) wrapperReturnsRelease(fn *ssa.Function) bool {
+	for _, ret := range returnsOf(fn) {
+		if len(ret.Results) != 1 {
+			return false
+		}
+		ts := m.funcTargets(ret.Results[0])
+		if len(ts) != 1 || ts[0].Name() != "Unlock" {
+			return false
+		}
+	}
+	return true
+}
+
+type wrapperInfo struct {
+	l  lockID
+	ok bool
 }
